@@ -226,6 +226,19 @@ func Guard(cx *lib.Ctx, where, suffix string, input interface{}, f func()) (ok b
 	return true
 }
 
+// GuardKey is Guard with the failure key finished by the caller: mk receives "panic:<kind>:<message>".
+func GuardKey(cx *lib.Ctx, where string, mk func(key string) string, input interface{}, f func()) (ok bool) {
+	defer func() {
+		if p := recover(); p != nil {
+			st := string(debug.Stack())
+			cx.Res.Fail(lib.Failure{Kind: "oracle", Key: mk("panic:" + SpecKindInStack(st) + ":" + PanicKey(p)), Desc: fmt.Sprintf("panic in %s: %v\n%s", where, p, lib.Trunc(st, 1800)), Input: input})
+			ok = false
+		}
+	}()
+	f()
+	return true
+}
+
 // HasDiag reports whether a diagnostic summary containing sub is present.
 func HasDiag(diags hcl.Diagnostics, sub string) bool {
 	for _, d := range diags {
